@@ -8,7 +8,7 @@
    midnight off X is the instant at which local day number X starts. *)
 From Coq Require Import ZArith List Bool.
 From MV Require Import C19.ChronoModel C19.ChronoRun C19.CivilProofs C19.ChronoProofs C19.FastProofs
-  C19.StateLineModel C19.StateLineRun C19.StateLineProofs C19.ZoneModel C19.ZoneProofs.
+  C19.StateLineModel C19.StateLineRun C19.StateLineProofs C19.ZoneModel C19.ZoneProofs C19.ZoneWeekProofs.
 Import ListNotations.
 Open Scope Z_scope.
 
@@ -491,6 +491,98 @@ Example C19_dst_day_example :   (* New_York 2024-03-10 12:00 EDT (a 23-hour day)
   (* Havana 2024-03-10 has no 00:00:00 (DST starts at local midnight): the hypothesis fails, GetStartOfDay returns 23:00 of March 9th *)
   midnight_regular havana_table 19792 = false /\
   z_date_of havana_table (z_get_start_of_day havana_table (1710088200 * NS)) = (2024, 3, 9).
+Proof. vm_compute. intuition reflexivity. Qed.
+
+(* ---- (d) same day / same week / same month over a table.  IsSameDay compares GetStartOfDay of the two instants,
+   IsSameWeek the Monday-based GetStartOfWeek, IsSameMonth (year, month): each is an equivalence relation for EVERY table
+   (no hypothesis at all, not even sortedness), equal civil dates are always the same day, the same day is always the
+   same week.  With regular midnights (zone_okb B D z, 2B <= D): same day = equal civil dates (midnights of both days
+   regular: without the second one a day whose midnight was skipped can be "the same day" as the day time.Date moved
+   that midnight into), = b inside [start of a's day, start of the NEXT civil day) (midnights of a's day and of the
+   next day regular), and that civil day lasts 24 h minus the offset change in between (23 h / 25 h on transition days) *)
+Theorem C19_dst_same_day_equivalence : forall z,
+  ((forall a, z_is_same_day z a z a = true) /\
+   (forall a b, z_is_same_day z a z b = z_is_same_day z b z a) /\
+   (forall a b c, z_is_same_day z a z b = true -> z_is_same_day z b z c = true -> z_is_same_day z a z c = true)) /\
+  ((forall a, z_is_same_week z a z a = true) /\
+   (forall a b, z_is_same_week z a z b = z_is_same_week z b z a) /\
+   (forall a b c, z_is_same_week z a z b = true -> z_is_same_week z b z c = true -> z_is_same_week z a z c = true)) /\
+  ((forall a, z_is_same_month z a z a = true) /\
+   (forall a b, z_is_same_month z a z b = z_is_same_month z b z a) /\
+   (forall a b c, z_is_same_month z a z b = true -> z_is_same_month z b z c = true -> z_is_same_month z a z c = true)) /\
+  (forall a b, z_is_same_day z a z b = true <-> z_get_start_of_day z a = z_get_start_of_day z b) /\
+  (forall a b, z_date_of z a = z_date_of z b -> z_is_same_day z a z b = true) /\
+  (forall a b, z_is_same_day z a z b = true -> z_is_same_week z a z b = true) /\
+  (forall a b, z_is_same_month z a z b = true <-> z_year_of z a = z_year_of z b /\ z_month_of z a = z_month_of z b) /\
+  (forall a b, z_date_of z a = z_date_of z b -> z_is_same_month z a z b = true) /\
+  (forall B D, zone_okb B D z = true -> 2 * B <= D ->
+     (forall a b, midnight_regular z (z_lday z a) = true -> midnight_regular z (z_lday z b) = true ->
+        (z_is_same_day z a z b = true <-> z_date_of z a = z_date_of z b)) /\
+     (forall a, midnight_regular z (z_lday z a) = true -> midnight_regular z (z_lday z a + 1) = true ->
+        let s := z_get_start_of_day z a in
+        let e := z_midnight z (z_lday z a + 1) in
+        (forall b, z_date_of z a = z_date_of z b <-> s <= b < e) /\
+        (forall b, midnight_regular z (z_lday z b) = true -> (z_is_same_day z a z b = true <-> s <= b < e)) /\
+        e - s = (DAY_S - (zoff z e - zoff z s)) * NS /\ DAY - 2 * B * NS <= e - s <= DAY + 2 * B * NS)).
+Proof. exact dst_same_day_ok. Qed.
+Print Assumptions C19_dst_same_day_equivalence.
+
+Example C19_dst_same_day_example :   (* New_York 2024-03-10 (23 h): 00:00 EST = 05:00 UTC .. 2024-03-11 00:00 EDT = 04:00 UTC *)
+  let a := 1710086400 * NS in          (* 2024-03-10 12:00 EDT *)
+  midnight_regular ny_table (z_lday ny_table a) = true /\ midnight_regular ny_table (z_lday ny_table a + 1) = true /\
+  z_midnight ny_table (z_lday ny_table a + 1) - z_get_start_of_day ny_table a = 23 * HOUR /\
+  z_is_same_day ny_table a ny_table (1710046800 * NS) = true /\            (* 00:00:00 EST *)
+  z_is_same_day ny_table a ny_table (1710129600 * NS - 1) = true /\        (* 23:59:59.999999999 EDT *)
+  z_is_same_day ny_table a ny_table (1710129600 * NS) = false /\           (* next midnight, only 23 h later *)
+  z_is_same_day ny_table a ny_table (1710046800 * NS - 1) = false /\
+  z_is_same_week ny_table a ny_table (1710129600 * NS) = false /\ z_is_same_month ny_table a ny_table (1710129600 * NS) = true /\
+  (* Havana 2024-03-10 has no midnight: GetStartOfDay of that day is 23:00 of the 9th, not the 00:00 of the 9th, so even
+     there the two days are not confused; the hypothesis midnight_regular fails *)
+  midnight_regular havana_table 19792 = false /\
+  z_is_same_day havana_table (1710088200 * NS) havana_table (1710000000 * NS) = false.
+Proof. vm_compute. intuition reflexivity. Qed.
+
+(* ---- (e) start / end of week over a table.  week_day X w = monday_of X + (w + 6) mod 7 is the civil day the
+   fixed-offset computation aims at (weekday w of the Monday-based week of civil day X).  If local midnight of t's
+   civil day and of that target day exist exactly once: the result IS on that civil day, has weekday w, reads
+   00:00:00.0, is the exact boundary of that day (so it is <= t iff the target day is not after t's day), at the stated
+   distance from t (below 7 x 24 h + 2B).  With Monday's midnight regular: Monday 00:00:00 <= t, less than
+   7 x 24 h + 2B before t, r is (w+6) mod 7 civil days after it, and r's own week starts at the same Monday.  With
+   23:59:59 of the target day regular: GetEndOfWeek is 23:59:59.0 of that civil day, and [r, e + 1 s) is exactly that day *)
+Theorem C19_dst_start_of_week : forall B D z t w, zone_okb B D z = true -> 2 * B <= D -> 0 <= w <= 6 ->
+  midnight_regular z (z_lday z t) = true ->
+  midnight_regular z (week_day (z_lday z t) w) = true ->
+  let r := z_get_start_of_week z t w in
+  z_lday z r = week_day (z_lday z t) w /\
+  z_weekday_of z r = w /\ z_clock_of z r = (0, 0, 0) /\ nsec r = 0 /\
+  (forall x, r <= x <-> week_day (z_lday z t) w <= z_lday z x) /\
+  (r <= t <-> week_day (z_lday z t) w <= z_lday z t) /\
+  r - t = ((week_day (z_lday z t) w - z_lday z t) * DAY_S - z_sod z t - (zoff z r - zoff z t)) * NS - nsec t /\
+  - (WEEK + 2 * B * NS) < r - t < WEEK + 2 * B * NS /\
+  (midnight_regular z (monday_of (z_lday z t)) = true ->
+     let mon := z_get_start_of_week z t 1 in
+     z_lday z mon = monday_of (z_lday z t) /\ z_weekday_of z mon = 1 /\ z_clock_of z mon = (0, 0, 0) /\ nsec mon = 0 /\
+     mon <= t /\ t - mon < WEEK + 2 * B * NS /\ mon <= r /\
+     r - mon = (((w + 6) mod 7) * DAY_S - (zoff z r - zoff z mon)) * NS /\ r - mon < WEEK + 2 * B * NS /\
+     z_get_start_of_week z r 1 = mon) /\
+  (wall_regular z (week_day (z_lday z t) w * DAY_S + 86399) = true ->
+     let e := z_get_end_of_week z t w in
+     z_lday z e = week_day (z_lday z t) w /\ z_weekday_of z e = w /\ z_clock_of z e = (23, 59, 59) /\ nsec e = 0 /\
+     e + SECOND - r = (DAY_S - (zoff z e - zoff z r)) * NS /\
+     (forall x, r <= x < e + SECOND <-> z_lday z x = week_day (z_lday z t) w)).
+Proof. intros B D z t w H. exact (dst_start_of_week B D z t w (zone_okb_ok B D z H)). Qed.
+Print Assumptions C19_dst_start_of_week.
+
+Example C19_dst_start_of_week_example :
+  (* New_York, Sunday 2024-03-10 12:00 EDT (the transition day): Monday = 2024-03-04 00:00 EST, 6 d 11 h earlier (not
+     6 d 12 h); the Sunday of that week is the transition day itself, 00:00 EST *)
+  let t := 1710086400 * NS in
+  z_lday ny_table t = 19792 /\ week_day 19792 1 = 19786 /\ week_day 19792 0 = 19792 /\
+  midnight_regular ny_table 19792 = true /\ midnight_regular ny_table 19786 = true /\
+  wall_regular ny_table (19792 * DAY_S + 86399) = true /\
+  z_get_start_of_week ny_table t 1 = 1709528400 * NS /\ t - z_get_start_of_week ny_table t 1 = 6 * DAY + 11 * HOUR /\
+  z_get_start_of_week ny_table t 0 = 1710046800 * NS /\ z_get_end_of_week ny_table t 0 = 1710129599 * NS /\
+  z_get_end_of_week ny_table t 0 + SECOND - z_get_start_of_week ny_table t 1 = WEEK - HOUR.
 Proof. vm_compute. intuition reflexivity. Qed.
 
 (* ---- (g) the code AS WRITTEN before fixes/C19-dst-calendar-arithmetic.patch (168-hour weeks, AddDate applied to a
